@@ -729,10 +729,14 @@ package server
 // whole state machine from the snapshot, so it has to re-install the last published index as well - otherwise a
 // restart after the log was compacted resumes at index 1, which is no longer in the log
 //@ ghost var activityIndexRestored bool
-//@ func (*Server).Restore serves C18
+//@ ghost var recoveryEndScheduled bool
+//@ func (*Server).Restore serves C18, C06
+//@   ghost at entry: ghost.recoveryEndScheduled := false
+//@   ghost after call finishedRecovery: ghost.recoveryEndScheduled := true
+//@   call applyCreateStream requires [C06:restored-partitions-are-not-left-in-recovery-mode] !arg2 || ghost.recoveryEndScheduled
 //@   ghost at entry: ghost.activityIndexRestored := false
 //@   ghost after call SetLastPublishedRaftIndex: ghost.activityIndexRestored := true
-//@   ensures [last-published-index-restored] result == nil ==> ghost.activityIndexRestored
+//@   ensures [C18:last-published-index-restored] result == nil ==> ghost.activityIndexRestored
 
 // resuming a paused partition also clears the flag in the partition's protobuf value - that value is what a
 // snapshot stores, so a left-over flag brings the partition back paused after a restart from a snapshot (C06)
@@ -743,3 +747,6 @@ package server
 //@   ghost at entry: ghost.partitionReplaced := false
 //@   ghost after call replacePartition: ghost.partitionReplaced := ret1 == nil
 //@   ensures [paused-flag-cleared-in-the-metadata] err == nil && ghost.partitionReplaced ==> part != nil && !part.Partition.Paused
+// partitions rebuilt from a snapshot are created in recovery mode (not started); something must then end the recovery.
+// Today only Apply does, when it reaches the last entry of a replayed log tail - if the log holds no command after
+// the snapshot, nothing ever starts the restored partitions (C06: the restarted server must reach the state it had)
